@@ -8,11 +8,11 @@ TRUSTED = ['Lean 4.33 kernel', 'axioms: propext, Classical.choice, Quot.sound',
            'hand model PGM/Model/Public.lean of entropic_mirror_descent (as written, stale P included) tied to public_inference.py by running the Float instance on the same objective and comparing the weights',
            'the objective as a function of the record weights is the quadratic Cert.loss with A = (1/noise) Q Inc (Inc = record -> cell incidence); compared with PublicInference\'s own loss per run',
            'estimate_total is C09']
-ASSUMPTIONS = ['squared-error metric']
+ASSUMPTIONS = ['metric L2 or L1 (noise-weighted); the Lean descent model is compared for L2 only']
 RULE = ('public datasets of 5-60 records over 2-3 attributes (duplicates; cells the private data never hits), 1-3 measurements incl. overlapping projections, noise in {0.1,1,5}, '
-        'total given or estimated; non-trivial = at least 2 measurements or duplicate records; distinct = distinct (public data, measurements, total)')
+        'total given or estimated; metric L2 (2/3) or L1 (1/3); every sixth case a directed conflict (precise one-way answers vs very noisy contradicting two-way answers); every second case followed by a second call with another total on the same object; non-trivial = at least 2 measurements or duplicate records; distinct = distinct (public data, measurements, total)')
 EXPLANATION = ('weights: one per record, finite, nonnegative, summing to the total, records unchanged; final loss <= loss of the uniform weighting with the same total; '
-               'Lean Float model of the same descent compared with the implementation\'s weights')
+               'the dataset handed back by an earlier call keeps its weights after a later call; Lean Float model of the same descent compared with the implementation\'s weights')
 
 
 def gen(r):
@@ -54,21 +54,48 @@ def gen(r):
     return dom, attrs, sizes, rows, meas, N
 
 
+def gen_conflict(r):
+    """precise one-way answers against very noisy two-way answers that contradict them (all mass on one value of the first attribute):
+    the noise weighting decides which of the two the estimator should believe"""
+    attrs = r.sample(['a', 'b', 'c', 'd'], 2)
+    dom = [[a, r.choice([2, 3])] for a in attrs]
+    sizes = dict(map(tuple, dom))
+    cells = list(itertools.product(*[range(sizes[a]) for a in attrs]))
+    rows = [list(c) for c in cells for _ in range(r.randint(1, 3))]
+    r.shuffle(rows)
+    N = r.choice([100, 500])
+    meas = []
+    for a in attrs:
+        p = sizes[a]
+        x = np.full(p, N / p)
+        meas.append((np.eye(p), x + np.array([r.gauss(0, 0.1) for _ in range(p)]), 0.1, (a,)))
+    for _ in range(2):
+        pcells = list(itertools.product(*[range(sizes[a]) for a in attrs]))
+        x = np.array([N / sizes[attrs[1]] if c[0] == 0 else 0.0 for c in pcells])
+        meas.append((np.eye(len(pcells)), x + np.array([r.gauss(0, 10.0) for _ in range(len(pcells))]), 10.0, tuple(attrs)))
+    return dom, attrs, sizes, rows, meas, N
+
+
 def run(res, drv, tier, seed):
     import pandas as pd
     from mbi import Domain, Dataset, PublicInference
     r = rng(seed, 'C19')
     n = 25 if tier == 'quick' else 250
     for ci in range(n):
-        dom, attrs, sizes, rows, meas, N = gen(r)
+        conflict = ci % 6 == 5
+        dom, attrs, sizes, rows, meas, N = gen_conflict(r) if conflict else gen(r)
+        metric = 'L1' if ci % 3 == 2 else 'L2'
+        res.count('metric:' + metric)
+        if conflict:
+            res.count('directed: precise one-way vs noisy contradicting two-way answers')
         d = Domain(attrs, [sizes[a] for a in attrs])
         df = pd.DataFrame(np.array(rows, dtype=int), columns=attrs)
         pub = Dataset(df.copy(), d)
         total = r.choice([None, float(N), 17.5])
-        canon = {'dom': dom, 'rows': rows, 'total': total, 'meas': [{'Q': Q.tolist(), 'y': y.tolist(), 'noise': s, 'proj': list(p)} for Q, y, s, p in meas]}
+        canon = {'dom': dom, 'rows': rows, 'total': total, 'metric': metric, 'meas': [{'Q': Q.tolist(), 'y': y.tolist(), 'noise': s, 'proj': list(p)} for Q, y, s, p in meas]}
         res.case(canon, len(meas) >= 2 or len(set(map(tuple, rows))) < len(rows), sample={'dom': dom, 'records': len(rows), 'projections': [list(m[3]) for m in meas], 'total': total} if ci < 3 else None)
         res.count('total given' if total is not None else 'total estimated')
-        eng = PublicInference(pub)
+        eng = PublicInference(pub, metric=metric)
         try:
             with np.errstate(all='ignore'):
                 est = eng.estimate(list(meas), total=total)
@@ -87,7 +114,10 @@ def run(res, drv, tier, seed):
             for j, row in enumerate(rows):
                 Inc[idx[tuple(row[attrs.index(a)] for a in proj)], j] = 1.0
             ms.append(((Q @ Inc) / s, y / s))
-        L = lambda v: sum(0.5 * float((A @ v - yy) @ (A @ v - yy)) for A, yy in ms)
+        if metric == 'L1':
+            L = lambda v: sum(float(np.abs(A @ v - yy).sum()) for A, yy in ms)
+        else:
+            L = lambda v: sum(0.5 * float((A @ v - yy) @ (A @ v - yy)) for A, yy in ms)
         lu, lw = L(np.full(len(rows), T / len(rows))), L(w)
         bad = None
         if w.shape != (len(rows),):
@@ -109,7 +139,30 @@ def run(res, drv, tier, seed):
         if not close(impl_loss, lw, 1e-8, 1e-8):
             res.violation('correspondence', f'objective: PublicInference loss {impl_loss}, quadratic form in the weights {lw}', dict(rp, stream='C19.objective'))
             continue
-        if drv:
+        # a later call on the same object (different total, warm-started from these weights) must leave the dataset already handed back untouched
+        if ci % 2 == 0:
+            w_before = w.copy()
+            T2 = T * r.choice([0.5, 1.5, 2.0])
+            try:
+                with np.errstate(all='ignore'):
+                    est2 = eng.estimate(list(meas[: max(1, len(meas) - 1)]), total=T2)
+            except Exception as e:
+                res.violation('failing-input', f'second PublicInference.estimate call raises {type(e).__name__}: {str(e)[:120]}', {'request': canon}, key='public:raises')
+                continue
+            res.count('second call on the same object')
+            w_after = np.asarray(est.weights, dtype=float)
+            w2 = np.asarray(est2.weights, dtype=float)
+            bad = None
+            if not np.array_equal(w_after, w_before):
+                bad = f'the weights handed back by the first call changed after a second call (sum {float(w_before.sum())!r} -> {float(w_after.sum())!r})'
+            elif np.shares_memory(np.asarray(est.weights), np.asarray(est2.weights)):
+                bad = 'the datasets returned by two calls share their weight array'
+            elif w2.shape != (len(rows),) or not np.all(np.isfinite(w2)) or w2.min() < 0 or not close(float(w2.sum()), T2, 1e-9, 1e-12):
+                bad = f'second call: weights invalid (sum {float(w2.sum())}, total {T2})'
+            if bad:
+                res.violation('failing-input', 'PublicInference.estimate: ' + bad, dict(rp, expected=bad, second_total=T2), key='public:history')
+                continue
+        if drv and metric == 'L2':
             o = drv.one({'op': 'emd', 'ms': [{'A': [[enc_f(v) for v in row] for row in A], 'y': [enc_f(v) for v in yy]} for A, yy in ms],
                          'x0': [enc_f(1.0)] * len(rows), 'total': enc_f(T), 'iters': 250})
             if not o['ok']:
